@@ -144,7 +144,7 @@ func onDeath(d worker.Death) (string, string, bool) {
 		} else if strings.Contains(line, "op=delete") {
 			key = "delete-nontermination"
 		}
-		return key, fmt.Sprintf("case %d: more than %.0fs CPU consumed on a store of ≤ %d nodes: %s", d.Case, cpuBound.Seconds(), maxNodes, line), false
+		return key, fmt.Sprintf("case %d: more than %.0fs CPU consumed by one operation on a store of ≤ %d nodes: %s", d.Case, cpuBound.Seconds(), maxNodes, line), false
 	}
 	if d.TimedOut {
 		// goroutine dump: a Delete/GC frame parked on a lock or channel with no CPU use is a deadlock
@@ -173,6 +173,14 @@ func selfCPU() time.Duration {
 		return 0
 	}
 	return time.Duration(ru.Utime.Nano() + ru.Stime.Nano())
+}
+
+// markOp names the operation that starts now and restarts the CPU account: the bound is on the CPU one
+// operation (with its observations and replay probes) may use, not on a whole case, whose many
+// sub-executions legitimately add up (more so with system time on a loaded machine).
+func markOp(name string) {
+	currentOp.Store(name)
+	caseStartCPU.Store(int64(selfCPU()) + 1)
 }
 
 func cpuWatchdog() {
@@ -478,7 +486,7 @@ func runHist(i int, rng *rand.Rand, res *worker.Result) {
 	}
 	defer e.close()
 	do := func(o op) {
-		currentOp.Store(o.Op)
+		markOp(o.Op)
 		e.countTag(o)
 		e.apply(o, true)
 	}
@@ -620,14 +628,14 @@ func runSmall(i int, rng *rand.Rand, res *worker.Result) {
 		}
 		defer e.close()
 		for _, o := range prefix {
-			currentOp.Store(o.Op)
+			markOp(o.Op)
 			e.apply(o, false)
 			if e.stop {
 				return false
 			}
 		}
 		for _, o := range tail {
-			currentOp.Store(o.Op)
+			markOp(o.Op)
 			e.apply(o, true)
 			if e.stop {
 				return false
